@@ -7,6 +7,9 @@
              (= (lower n) n) (= (lower d) d)))
      :pattern ((select (select t n) d)))))
 ; a name is live while the current height is strictly below its expiry (DESIGN 5.C08)
+(declare-fun free_name (Int Int) Str)
+(assert (= (lower {str "jkl"}) {str "jkl"}))
+(assert (= (lower {str "ibc"}) {str "ibc"}))
 (define-fun name_live ((t (Array Str (Array Str (Option T_rns_Names)))) (n Str) (d Str) (h Int)) Bool
   (and ((_ is some_T_rns_Names) (select (select t n) d)) (< h (T_rns_Names_Expires (val_T_rns_Names (select (select t n) d))))))
 ; sum of all open bids per denomination: ghost function axiomatised by its update equations
